@@ -226,6 +226,14 @@ def step (w : World) (line : String) : World × String :=
           | some r => ({ (w.putEnt i r.e) with p := w.p.set! i r.p },
                        s!"out={toHex r.out} reqs={listNat (reqPositions r.trace 0)} calls={r.e.oscalls} slack=ok")
         | none => bad
+      | "p.genbig" => match a.toNat? with
+        | some n =>
+          match w.p[i]!.generate (ent w i) n with
+          | none => (w, "crash SIGSEGV")
+          | some r =>
+            let h : UInt64 := r.out.foldl (fun h b => (h ^^^ b.toUInt64) * 1099511628211) 1469598103934665603
+            ({ (w.putEnt i r.e) with p := w.p.set! i r.p }, s!"sum={h.toNat} reqs={listNat (reqPositions r.trace 0)} slack=ok")
+        | none => bad
       | "p.feed" => match parseHex a with
         | some b => ({ w with p := w.p.set! i (w.p[i]!.feed b) }, "ok") | none => bad
       | "p.limit" => match a.toNat? with
